@@ -14,8 +14,9 @@ UNIT_CONFIGS = {
     'retain': [('', ('std',))],
     'registry_impls': [('', ('std',))],
     'codec': [('', ('std',))],
-    'serde': [('', ('std', 'serde'))],
-    'path': [('', ('std',))],
+    # the serde attributes are cfg_attr'd: verified with and without the features that could gate them (docs, schema, decode, bit-vec)
+    'serde': [('', ('std', 'serde')), ('-docs', ('std', 'serde', 'docs')), ('-all', ('std', 'serde', 'decode', 'bit-vec', 'schema'))],
+    'path': [('', ('std',)), ('-nostd', ()), ('-all', ('std', 'serde', 'decode', 'bit-vec', 'schema', 'docs'))],
     'build': [('-docs', ('std', 'docs')), ('-nodocs', ('std',))],
     'metatype': [('', ('std',))],
     'alias': [('', ('std', 'bit-vec'))],    # the three impls of `mod bit_vec` exist only with the feature
@@ -36,7 +37,8 @@ STD_ASSUMPTIONS = {
     'A6': 'ASSUMED: String: From<&\'static str> preserves the characters (uninterpreted injective spec function)',
     'A7': 'machine integers: Verus checks overflow; `as u32` casts of lengths truncate in the real code beyond 2^32 entries, '
           'so every id clause is stated relative to capacity cap_ok(len) := len <= 2^32',
-    'VSTD': 'vstd specifications of Vec, slice, Option, BTreeMap::{new,insert,get,contains_key}, Seq/Map/Set libraries (trusted, shipped with Verus)',
+    'VSTD': 'vstd specifications of Vec, slice, Option, BTreeMap::{new,insert,get,contains_key}, Seq/Map/Set libraries (trusted, shipped with Verus). Known hole of that base: vstd gives '
+            'Vec::with_capacity / Vec::reserve no precondition, so a capacity-overflow panic (with_capacity(usize::MAX)) is invisible to every "cannot panic" conclusion drawn here',
     'A8': 'ASSUMED contract on <[T]>::to_vec (returns the same sequence); only instantiation T = &\'static str',
     'A9': 'ASSUMED: MetaType::type_info() is deterministic and depends only on the declared identity (info_of(type_id)) - the coherence half of C16 for '
           'user-written impls; MetaType is opaque in the registry units (rule R9), its accessors carry the contracts proved in unit metatype',
@@ -79,12 +81,12 @@ PROPS = {
         level='proof',
         technique='Verus data-structure invariant + trait-level contract on every into_portable impl; retain closure/cardinality contract; register_types / map_into_portable / finish verified as the loops that define their iterator pipelines (rule R20)',
         level_text='Registry::inv (every stored definition is filed under an in-range id and all ids it mentions are in range) and the pay-back clause (a call leaves a definition for exactly the ids it interned) are proved for register_type / intern_type_id and inherited by all 14 IntoPortable impls with MetaType::type_info() unconstrained, so density and closure hold after every top-level call for every type with type info (lemma_dense_step, lemma_dense_closed); resolve returns exactly the entry at the position; the builder is proved a duplicate-free list; retain on a well-formed registry is proved to return a well-formed registry (reg_wf: entry i carries id i and every referenced id resolves; see C10).',
-        level_note='Assumed contracts: BTreeMap entry API, lawful Ord/Clone of key types, mem::replace. Registry::register_types, Registry::map_into_portable (closures capturing &mut inside map().collect()) and PortableRegistryBuilder::finish (enumerate) are no longer external: they are verified after rule R20 (an iterator pipeline ending in collect into a Vec is replaced by the loop std defines it by: next() until None, results pushed in order), with loop invariants; the Kani harness map_into_portable_in_order and the native histories run them on the real std iterators as a cross-check of that rule. TypeParameter::into_portable is verified after rule R19 (Option::map on a closure literal replaced by its definition, a match). From<Registry> for PortableRegistry IS verified (as an identical-text inherent twin, tuple-pattern closure rewritten to a let, rule R8) under the assumption that BTreeMap iterates in ascending key order. Registries obtained by decoding the output of the library: by theorem_roundtrip (unit codec, C07) the decoded value EQUALS the encoded registry, so it inherits density and closure - that theorem is part of the obligations of this property only through C07, not re-proved here. Partial correctness for registration. All id guarantees up to 2^32 entries.',
+        level_note='Assumed contracts: BTreeMap entry API, lawful Ord/Clone of key types, mem::replace. Registry::register_types, Registry::map_into_portable (closures capturing &mut inside map().collect()) and PortableRegistryBuilder::finish (enumerate) are no longer external: they are verified after rule R20 (an iterator pipeline ending in collect into a Vec is replaced by the loop std defines it by: next() until None, results pushed in order), with loop invariants; the Kani harness map_into_portable_in_order and the native histories run them on the real std iterators as a cross-check of that rule. TypeParameter::into_portable is verified after rule R19 (Option::map on a closure literal replaced by its definition, a match). From<Registry> for PortableRegistry IS verified (as an identical-text inherent twin, tuple-pattern closure rewritten to a let, rule R8) under the assumption that BTreeMap iterates in ascending key order. Registries obtained by decoding the output of the library: by theorem_roundtrip (unit codec, C07) the decoded value EQUALS the encoded registry, so it inherits density and closure - that theorem is part of the obligations of this property only through C07, not re-proved here. The closure clause (every mentioned id resolves) is NOT claimed for registries assembled through the runtime builder: the builder stores whatever Type<PortableForm> values it is handed, dangling ids included - for finish only "entry i carries id i and the i-th value" is proved. theorem_from_registry_dense closes the chain for From<Registry>: a dense map has exactly len entries (lemma_dense_card), hence entry i of the conversion carries id i and the definition filed under i. Partial correctness for registration. All id guarantees up to 2^32 entries.',
         verus=[('interner', INTERNER_ITEMS), ('registry', REGISTRY_ITEMS + ['tmpl::lemma_dense_*', 'tmpl::lemma_img_closed', 'tmpl::lemma_*_mono']),
                ('registry_impls', IMPL_ITEMS),
                ('portable', ['PortableRegistry::resolve', 'PortableRegistry::types', 'PortableRegistryBuilder::*', 'PortableType::*', 'Registry::types',
                              '::core::default::Default for PortableRegistryBuilder::default',
-                             'From<Registry> for PortableRegistry::from', 'tmpl::lemma_from_registry_dense', 'tmpl::lemma_sorted_*']),
+                             'From<Registry> for PortableRegistry::from', 'tmpl::lemma_from_registry_dense', 'tmpl::lemma_sorted_*', 'tmpl::lemma_dense_card', 'tmpl::theorem_from_registry_dense']),
                ('retain', ['PortableRegistry::retain', 'tmpl::lemma_*'])],
         kani_quick=['builder_new_is_empty', 'map_into_portable_in_order'],
         kani_thorough=['builder_new_is_empty', 'map_into_portable_in_order', 'std_map_collect_is_the_loop', 'std_enumerate_collect_is_the_loop'],
@@ -95,7 +97,7 @@ PROPS = {
         level='proof',
         technique='Verus: image_of postcondition (structural relation over all 8 definition kinds) on every into_portable impl and on register_type; invariant over the registry',
         level_text='The trait contract ensures image_of(self, out, final table): path segments, parameter names, field names/order/type names, variant names/indices, docs and array lengths equal, sequences related element-wise in order, each reference an in-range id whose table entry is the identity of the referenced MetaType. register_type ensures the returned id resolves to the type\'s identity, and Registry::inv states that every stored definition is the image of info_of(identity) w.r.t. the current table (stable under growth: proved monotonicity lemmas). Holds for recursive and mutually recursive types because type_info() is an unconstrained external function.',
-        level_note='Termination of registration is NOT proved (partial correctness). Coherence assumption A9 (type_info deterministic per identity). String conversion &str -> String assumed to preserve characters. register_types / map_into_portable are verified after rule R20 (an iterator pipeline ending in collect into a Vec is replaced by the loop std defines it by: next() until None, results pushed in order) - Kani-bounded order check for map_into_portable on the real iterators as a cross-check; TypeParameter::into_portable is verified (rule R19). For the types of src/impls.rs the coherence assumption is discharged by unit alias (every impl that shares an identity forwards its definition), which is part of this check.',
+        level_note='Termination of registration is NOT proved (partial correctness; the 14 into_portable impls carry exec_allows_no_decreases_clause like register_type, so even a directly self-recursive conversion is invisible to the proof - only the native leg, by timing out, and never as a violation). Coherence assumption A9 (type_info deterministic per identity). String conversion &str -> String assumed to preserve characters. register_types / map_into_portable are verified after rule R20 (an iterator pipeline ending in collect into a Vec is replaced by the loop std defines it by: next() until None, results pushed in order) - Kani-bounded order check for map_into_portable on the real iterators as a cross-check; TypeParameter::into_portable is verified (rule R19). For the types of src/impls.rs the coherence assumption is discharged by unit alias (every impl that shares an identity forwards its definition), which is part of this check.',
         verus=[('registry', REGISTRY_ITEMS + ['tmpl::lemma_*']), ('registry_impls', IMPL_ITEMS + ['tmpl::lemma_*']), ('alias', ['TypeInfo for *', 'tmpl::identity::*'])],
         kani_quick=['map_into_portable_in_order', 'std_string_from_and_to_vec_small'], kani_thorough=['map_into_portable_in_order', 'std_string_from_and_to_vec_small', 'std_map_collect_is_the_loop'],
         assumptions=['A4', 'A5', 'A6', 'A7', 'A9', 'PARTIAL', 'MODULAR', 'A12', 'VSTD', 'TOOLS'],
@@ -104,9 +106,9 @@ PROPS = {
         title='One entry per distinct type: aliases share an id, distinct types never merge',
         level='proof',
         technique='Verus: interner duplicate-freeness + register_type "present => unchanged" postcondition + ghost evaluation counter; minimality clause of the trait contract and theorem_exactly_reachable (interned iff reachable from a registered root); generic identity obligations generated per TypeInfo impl (rustc-expanded)',
-        level_text='register_type ensures: identity already present => table and definitions unchanged and the existing id returned; a ghost counter asserted before every .type_info() call proves the definition is evaluated at most once per call and only for an identity absent on entry. For every TypeInfo impl of src/impls.rs (macro-generated ones and the three of the nested bit-vec module included; the unit runs with features std + bit-vec) a generic proof obligation is generated: transparent wrappers (Box, Rc, Arc, &, &mut, Vec, VecDeque, String, PhantomData) have the identity of their target for ALL type arguments incl. nested ones, every other impl has identity Self (with TypeId injectivity: never shares an id); MetaType::new is proved to store TypeId::of::<T::Identity>(). "Exactly one entry per identity REACHABLE from what was registered": theorem_exactly_reachable - in a registry rooted in the registered identities (history invariant, lemma_rooted_step) an identity is interned if and only if it is reachable from a root; no other entry is ever created (minimality clause of the trait contract, proved for the Registry functions and all 14 impls).',
+        level_text='register_type ensures: identity already present => table and definitions unchanged and the existing id returned; a ghost counter asserted before the .type_info() call of register_type proves the definition is evaluated at most once per call and only for an identity absent on entry; structural obligations (no_call::type_info, one per verified function of the registry units) state that this is the ONLY call of type_info in any spelling - register_type may contain one, every other Registry function and all 14 into_portable impls none. For every TypeInfo impl of src/impls.rs (macro-generated ones and the three of the nested bit-vec module included; the unit runs with features std + bit-vec) a generic proof obligation is generated: transparent wrappers (Box, Rc, Arc, &, &mut, Vec, VecDeque, String, PhantomData) have the identity of their target for ALL type arguments incl. nested ones, every other impl has identity Self (with TypeId injectivity: never shares an id); MetaType::new is proved to store TypeId::of::<T::Identity>(). "Exactly one entry per identity REACHABLE from what was registered": theorem_exactly_reachable - in a registry rooted in the registered identities (history invariant, lemma_rooted_step) an identity is interned if and only if it is reachable from a root; no other entry is ever created (minimality clause of the trait contract, proved for the Registry functions and all 14 impls).',
         level_note='TypeId::of injectivity is an assumption about std (A4). Derived impls (`type Identity = Self` emitted by the proc-macro) and user-written impls are outside the obligations.',
-        verus=[('interner', INTERNER_ITEMS), ('registry', ['Registry::intern_type_id', 'Registry::register_type', 'Registry::register_types', 'Registry::map_into_portable', 'tmpl::lemma_one_entry_per_identity', 'tmpl::theorem_exactly_reachable', 'tmpl::lemma_rooted_*', 'tmpl::lemma_reach_*', 'tmpl::lemma_path_closed', 'tmpl::lemma_succ_closed', 'tmpl::lemma_img_mentions', 'tmpl::lemma_type_reaches']), ('registry_impls', IMPL_ITEMS),
+        verus=[('interner', INTERNER_ITEMS), ('registry', ['Registry::intern_type_id', 'Registry::register_type', 'Registry::register_types', 'Registry::map_into_portable', 'tmpl::lemma_one_entry_per_identity', 'tmpl::theorem_exactly_reachable', 'tmpl::lemma_rooted_*', 'tmpl::lemma_reach_*', 'tmpl::lemma_path_closed', 'tmpl::lemma_succ_closed', 'tmpl::lemma_img_mentions', 'tmpl::lemma_type_reaches', 'tmpl::no_call::*']), ('registry_impls', IMPL_ITEMS + ['tmpl::no_call::*']),
                ('alias', ['TypeInfo for *', 'tmpl::identity::*']), ('metatype', ['MetaType::new', 'MetaType::type_id'])],
         kani_quick=['metatype_new_identity'], kani_thorough=['metatype_new_identity'],
         assumptions=['A1', 'A4', 'A5', 'A7', 'A9', 'PARTIAL', 'MODULAR', 'A12', 'VSTD', 'TOOLS'],
@@ -234,10 +236,11 @@ PROPS = {
                    'and the assumptions of C01/C02/C06/C17 for the units reused here. Feature-dependent derives (Decode, Serialize, JsonSchema) do not touch the Encode path; the expansion is '
                    'nevertheless taken from rustc under each configuration.',
         verus=[('build', ['*']), ('interner', INTERNER_ITEMS), ('registry', REGISTRY_ITEMS), ('registry_impls', IMPL_ITEMS),
-               ('portable', ['From<Registry> for PortableRegistry::from', 'Registry::types']), ('codec', ['crate::scale::Encode for *::encode_to'])],
+               ('portable', ['From<Registry> for PortableRegistry::from', 'Registry::types']), ('codec', ['crate::scale::Encode for *::encode_to']),
+               ('path', ['is_rust_identifier', 'Path<MetaForm>::from_segments', 'Path<T>::from_segments_unchecked', 'Path<T>::voldemort'])],
         verus_configs={u: [('-nostd', ()), ('-decode', ('decode',)), ('-std', ('std',)), ('-all', ('std', 'serde', 'decode', 'bit-vec', 'schema'))] +
                           ([('-nostd-docs', ('docs',)), ('-all-docs', ('std', 'serde', 'decode', 'bit-vec', 'schema', 'docs'))] if u == 'build' else [])
-                       for u in ('build', 'interner', 'registry', 'registry_impls', 'portable', 'codec')},
+                       for u in ('build', 'interner', 'registry', 'registry_impls', 'portable', 'codec', 'path')},
         kani_quick=[], kani_thorough=[],
         assumptions=['A1', 'A2', 'A4', 'A5', 'A6', 'A7', 'A9', 'CODEC', 'PARTIAL', 'MODULAR', 'A12', 'VSTD', 'TOOLS'],
     ),
